@@ -4,4 +4,5 @@ CONSTANTS
   BinOps <- AllBin
   UnOps <- AllUn
   MaxDepth = 2
+  FloorDiv = TRUE
 INVARIANT Emit
